@@ -93,9 +93,11 @@ def gen_case(rng, sim, nmax=8):
         c["delay"] = []
         for u, v in edges_dir:
             per = []
-            for _ in range(m):
+            for occ in range(m):
                 k = rng.choice([0, 1, 1, 2, 3])
-                per.append([str(x) for x in sorted({F(rng.randrange(1, 4 * den), den) for _ in range(k)})])
+                d = F(c["dur"][u][occ])
+                # "All delays are before recovery" (docstring): delays in (0, duration)
+                per.append([str(x) for x in sorted({d * F(rng.randrange(1, 64), 64) for _ in range(k)})])
             c["delay"].append([u, v, per])
         c["joint"] = rng.random() < 0.3
     if sim == "discrete_SIR":
